@@ -150,7 +150,7 @@ pub fn drive_predicates(cx: &mut Ctx) {
         }
     }
     // (c) random lattice tuples D = 2..5 in three scale classes
-    let per = if cx.thorough { 1500 } else { 150 };
+    let per = if cx.thorough { 5000 } else { 150 };
     for d in 2..=5usize {
         for i in 0..per {
             if !cx.mine() {
@@ -177,7 +177,7 @@ pub fn drive_predicates(cx: &mut Ctx) {
     // (d) a sweep of scales across the tolerance band: for every lattice unit 2^-4 .. 2^-18 determinants of the same
     //     tuples move from far above the documented tolerance (1e-15 + 1e-12 |A|) to below it; wherever the spec finds
     //     them decisive, both kernels must give the exact sign (a dead band wider than documented shows up here)
-    let per_scale = if cx.thorough { 40 } else { 6 };
+    let per_scale = if cx.thorough { 120 } else { 6 };
     for d in 2..=5usize {
         for s in (-18..=-4).rev() {
             for _ in 0..per_scale {
@@ -538,7 +538,7 @@ fn dedup_event<const D: usize>(tr: &mut Tracer, r: &mut Rng, idx: usize) {
 
 pub fn drive_orderings(cx: &mut Ctx) {
     // Hilbert tables: every (D, bits) with 2^(D*bits) <= cap
-    let cap: u64 = if cx.thorough { 65_536 } else { 4_096 };
+    let cap: u64 = if cx.thorough { 262_144 } else { 4_096 };
     for d in 1..=5u32 {
         for bits in 1..=16u32 {
             if (1u64 << (d * bits).min(40)) > cap {
@@ -556,7 +556,7 @@ pub fn drive_orderings(cx: &mut Ctx) {
             }
         }
     }
-    let per = if cx.thorough { 800 } else { 100 };
+    let per = if cx.thorough { 2500 } else { 100 };
     let mut r = Rng::new(cx.seed * 77 + 5);
     for d in 2..=5usize {
         for i in 0..per {
